@@ -3,3 +3,4 @@ pub mod proto;
 pub mod real;
 pub mod regen;
 pub mod rng;
+pub mod astser;
